@@ -664,10 +664,10 @@ def run_bounded(ctx):
         exhaustive=False,
         bound=("exhaustive: all non-constant vectors over {-2,-1,0,1,2}^n, n<=%d x center x scale x ddof{0,1}; "
                "random: %d vectors, n 2..50, |x| 1e-6..1e6, 6 families, ddof {0,0.5,1,2}, 4 containers")
-        % (5 if thorough else 4, 6000 if thorough else 1200),
+        % (5 if thorough else 4, 20000 if thorough else 1200),
     ) as b:
         rep = Reporter(ctx, b)
-        cases = _scale_cases(rng, 6000 if thorough else 1200, 5 if thorough else 4)
+        cases = _scale_cases(rng, 20000 if thorough else 1200, 5 if thorough else 4)
         merge(b, rep, pmap(_scale_worker, chunked(cases, 32)))
         rep.close()
 
@@ -701,11 +701,11 @@ def run_bounded(ctx):
              "container, vector, NaN positions, follow-up points)",
         bound=("exhaustive: all vectors over {0..4}^n, n<=%d, degree<=min(3, #distinct-1); random: %d vectors, "
                "n degree+1..50, degree 1..6, |x| 1e-6..1e6; tolerance %d*n*eps*kappa(data)")
-        % (5 if thorough else 4, 3000 if thorough else 500, POLY_C),
+        % (5 if thorough else 4, 12000 if thorough else 500, POLY_C),
     ) as b:
         rep = Reporter(ctx, b)
         stats_ = Counter()
-        cases = _poly_cases(rng, 3000 if thorough else 500, 5 if thorough else 4)
+        cases = _poly_cases(rng, 12000 if thorough else 500, 5 if thorough else 4)
         packed = pmap(_poly_worker, chunked(cases, 48))
         worst = max((p[4].pop(("max", "poly-worst-e"), 0.0) for p in packed), default=0.0)
         merge(b, rep, packed, stats_)
@@ -718,8 +718,8 @@ def run_bounded(ctx):
         "elementwise",
         rule="TRANSFORMS[name] on generated vectors vs the math-module meaning of the name; inverse pairs both ways; "
              "distinct = (check, name, vector)",
-        bound="%d vectors, n 2..50; log arguments 1e-6..1e6, exponents |x| 1e-6..40" % (120 if thorough else 25),
+        bound="%d vectors, n 2..50; log arguments 1e-6..1e6, exponents |x| 1e-6..40" % (400 if thorough else 25),
     ) as b:
         rep = Reporter(ctx, b)
-        _run_elementwise(ctx, b, rep, rng, 120 if thorough else 25)
+        _run_elementwise(ctx, b, rep, rng, 400 if thorough else 25)
         rep.close()
